@@ -37,7 +37,7 @@ func main() {
 	if len(patterns) == 0 {
 		patterns = []string{"./x/...", "./app/...", "./lib/...", "./utils/...", "./types/..."}
 	}
-	cfg := &packages.Config{Mode: packages.NeedName | packages.NeedFiles | packages.NeedSyntax | packages.NeedTypes | packages.NeedTypesInfo | packages.NeedCompiledGoFiles, Dir: "/repo",
+	cfg := &packages.Config{Mode: packages.NeedName | packages.NeedFiles | packages.NeedSyntax | packages.NeedTypes | packages.NeedTypesInfo | packages.NeedCompiledGoFiles, Dir: repoDir(),
 	}
 	pkgs, err := packages.Load(cfg, patterns...)
 	if err != nil {
@@ -55,7 +55,7 @@ func main() {
 		}
 		for i, f := range p.Syntax {
 			fn := p.CompiledGoFiles[i]
-			if strings.HasSuffix(fn, "_test.go") || strings.HasSuffix(fn, ".pb.go") || strings.HasSuffix(fn, ".pb.gw.go") || strings.HasSuffix(fn, ".pulsar.go") || !strings.HasPrefix(fn, "/repo/") || strings.Contains(fn, "zzverif_") {
+			if strings.HasSuffix(fn, "_test.go") || strings.HasSuffix(fn, ".pb.go") || strings.HasSuffix(fn, ".pb.gw.go") || strings.HasSuffix(fn, ".pulsar.go") || !strings.HasPrefix(fn, repoDir()+"/") || strings.Contains(fn, "zzverif_") {
 				continue
 			}
 			changed := false
@@ -114,7 +114,7 @@ func main() {
 			if err := format.Node(&buf, p.Fset, f); err != nil {
 				fatal(fmt.Errorf("format %s: %v", fn, err))
 			}
-			dst := filepath.Join(outdir, strings.TrimPrefix(fn, "/repo/"))
+			dst := filepath.Join(outdir, strings.TrimPrefix(fn, repoDir()+"/"))
 			os.MkdirAll(filepath.Dir(dst), 0o755)
 			if err := os.WriteFile(dst, buf.Bytes(), 0o644); err != nil {
 				fatal(err)
@@ -132,7 +132,15 @@ func main() {
 	fmt.Printf("seamgen: %d seam sites in %d files, %d go statements\n", len(sites), len(repl), len(goStmts))
 }
 
-func rel(fn string) string { return strings.TrimPrefix(fn, "/repo/") }
+// repoDir is /repo unless VERIF_REPO names another checkout (harness development only).
+func repoDir() string {
+	if d := os.Getenv("VERIF_REPO"); d != "" {
+		return d
+	}
+	return "/repo"
+}
+
+func rel(fn string) string { return strings.TrimPrefix(fn, repoDir()+"/") }
 
 func fatal(err error) {
 	fmt.Fprintln(os.Stderr, "seamgen:", err)
